@@ -537,6 +537,7 @@ pub fn run_check(check: &dyn Check, opts: &Options) -> i32 {
 
     let mut violations = 0u64;
     let mut known_hit: Vec<Value> = Vec::new();
+    let mut matched_known: std::collections::BTreeSet<String> = Default::default();
     let mut reported: Vec<Value> = Vec::new();
     let mut min_budget_total = 3000i64;
 
@@ -590,6 +591,7 @@ pub fn run_check(check: &dyn Check, opts: &Options) -> i32 {
             }
         }
         if let Some(e) = is_known {
+            matched_known.insert(e.signature.clone());
             println!("KNOWN-FINDING: property={id} {} [{sig}] occurrences={}", e.what, g.count);
             known_hit.push(json!({"signature": sig, "occurrences": g.count, "what": e.what}));
             continue;
@@ -635,6 +637,11 @@ pub fn run_check(check: &dyn Check, opts: &Options) -> i32 {
         if unbuildable * 2 > n_cases {
             harness_errors.push(format!("{unbuildable} of {n_cases} workloads could not be generated: no verdict"));
         }
+    }
+    // every listed known finding of this property is named on every run; the ones this run did not
+    // reach (other seed, other tier) say so
+    for e in known.findings.iter().filter(|e| e.status == "known" && e.property == id && !matched_known.contains(&e.signature)) {
+        println!("KNOWN-FINDING: property={id} {} [{}] occurrences=0 (listed; not reached by this run)", e.what, e.signature);
     }
     for p in check.expected_probes() {
         if total.probes.get(p).copied().unwrap_or(0) == 0 {
